@@ -8,10 +8,12 @@ Property theorems only; all statements are for every sequence of `send_frame` /
 -/
 namespace RSocketModel.SendQueue
 
+variable {β : Type}
+
 /-- **Per-stream order.** At every moment, for every stream, what has been emitted for it
 followed by what is still queued for it is exactly what was queued for it, in queueing order,
 fragment by fragment. -/
-theorem c05_stream_order (evs : List Ev) (h : Legal init evs) (sid : Nat) :
+theorem c05_stream_order (evs : List (Ev β)) (h : Legal init evs) (sid : Nat) :
     wireOf sid (run init evs).wire ++ pending sid (run init evs).queue = queuedFor sid evs := by
   have := run_order sid evs init h
   simpa [init, wireOf, pending] using this
@@ -19,12 +21,12 @@ theorem c05_stream_order (evs : List Ev) (h : Legal init evs) (sid : Nat) :
 /-- **Contiguity.** The frames of a stream reach the wire as a prefix of the concatenation of
 their fragment lists: no frame of that stream is sent between two fragments of another frame of
 the same stream, none is merged, truncated, duplicated or reordered. -/
-theorem c05_wire_is_prefix (evs : List Ev) (h : Legal init evs) (sid : Nat) :
+theorem c05_wire_is_prefix (evs : List (Ev β)) (h : Legal init evs) (sid : Nat) :
     ∃ rest, queuedFor sid evs = wireOf sid (run init evs).wire ++ rest :=
   ⟨_, (c05_stream_order evs h sid).symm⟩
 
 /-- The same at every intermediate moment (every prefix of the event sequence). -/
-theorem c05_every_prefix (evs more : List Ev) (h : Legal init (evs ++ more)) (sid : Nat) :
+theorem c05_every_prefix (evs more : List (Ev β)) (h : Legal init (evs ++ more)) (sid : Nat) :
     ∃ rest, queuedFor sid (evs ++ more) = wireOf sid (run init evs).wire ++ rest := by
   have hl : Legal init evs := by
     clear sid
@@ -38,7 +40,7 @@ theorem c05_every_prefix (evs more : List Ev) (h : Legal init (evs ++ more)) (si
 /-- **No starvation / everything is sent exactly once.** From any state whose queued frames all
 have at least one fragment, as many sender steps as there are queued fragments empty the queue,
 each step emitting exactly one fragment. -/
-theorem c05_drains (s : State) (hall : AllNonempty s.queue) :
+theorem c05_drains (s : State β) (hall : AllNonempty s.queue) :
     (run s (List.replicate (total s.queue) .step)).queue = [] ∧
     (run s (List.replicate (total s.queue) .step)).wire.length = s.wire.length + total s.queue := by
   induction hn : total s.queue generalizing s with
@@ -54,7 +56,7 @@ theorem c05_drains (s : State) (hall : AllNonempty s.queue) :
     exact ⟨this.1, by rw [this.2, h3]; omega⟩
 
 /-- After the queue has drained, the wire of each stream is exactly what was queued for it. -/
-theorem c05_drained_exact (evs : List Ev) (h : Legal init evs) (hq : (run init evs).queue = []) (sid : Nat) :
+theorem c05_drained_exact (evs : List (Ev β)) (h : Legal init evs) (hq : (run init evs).queue = []) (sid : Nat) :
     wireOf sid (run init evs).wire = queuedFor sid evs := by
   have := c05_stream_order evs h sid
   rw [hq] at this
@@ -70,7 +72,7 @@ example :
 
 /-- What the code did before fix F3 (only the head was moved to the back): the completion `13`
 overtakes fragments `11`, `12` of the same stream. Kept as a witness of the defect. -/
-def stepHeadOnly (s : State) : State :=
+def stepHeadOnly (s : State β) : State β :=
   match s.queue with
   | [] => s
   | h :: t =>
@@ -81,6 +83,6 @@ def stepHeadOnly (s : State) : State :=
 
 theorem c05_counterexample_head_only :
     wireOf 1 ((stepHeadOnly ∘ stepHeadOnly ∘ stepHeadOnly ∘ stepHeadOnly)
-      { queue := [⟨1, [10, 11, 12]⟩, ⟨1, [13]⟩], wire := [] }).wire ≠ [10, 11, 12, 13] := by decide
+      ({ queue := [⟨1, [10, 11, 12]⟩, ⟨1, [13]⟩], wire := [] } : State Nat)).wire ≠ [10, 11, 12, 13] := by decide
 
 end RSocketModel.SendQueue
